@@ -25,7 +25,7 @@ Proof. exists (-18000000000). intros x. split; reflexivity. Qed.
 Lemma est_real_now now : real_now est_lu now.
 Proof. intros t' L. unfold est_lu. lia. Qed.
 
-(* cron(* * * * *) with the obvious successor function satisfies croniter's contract *)
+(* the every-minute crontab (all five fields "any") with the obvious successor function satisfies the contract of croniter *)
 Definition every_minute : cronx := {| c_min := None; c_hour := None; c_dom := None; c_mon := None; c_dow := None |}.
 Definition next_minute (_ : cronx) (t : Z) : Z := (t / MINUTE + 1) * MINUTE.
 
@@ -42,7 +42,7 @@ Proof.
   - intros t' L1 L2. rewrite cron_match_every_minute. apply Z.eqb_neq. unfold tod_of, DAY, MINUTE in *. lia.
 Qed.
 
-(* once(13:00), period(0:00:30, 1 min), period(now, 5 min, now + 30 min), once(3/5 10:00), period(22:00, 1h, 6:00), cron(* * * * *) *)
+(* once(13:00), period(0:00:30, 1 min), period(now, 5 min, now + 30 min), once(3/5 10:00), period(22:00, 1h, 6:00), every-minute cron *)
 Definition hm (h m : Z) : tpart := THMS h m 0 0.
 Definition ex_specs : list tspec :=
   [ Once {| de_date := DNone; de_time := hm 13 0; de_off := None |};
@@ -72,7 +72,8 @@ Proof. vm_compute. reflexivity. Qed.
 (* ---------- refutations: the deviating code is not the successor function ---------- *)
 Definition only (k : nat) : deviations :=
   {| d_period_wallclock := Nat.eqb k 60; d_once_md_this_year := Nat.eqb k 61; d_float_floor := Nat.eqb k 63;
-     d_su_coincidence := Nat.eqb k 64; d_newsub_adj_recheck := false; d_legacy_gap_recheck := false |}.
+     d_su_coincidence := Nat.eqb k 64; d_newsub_adj_recheck := false; d_legacy_gap_recheck := false;
+     d_md_invalid_raises := Nat.eqb k 65 |}.
 
 Definition full (y m d : Z) (t : tpart) : dtexpr := {| de_date := DFull y m d; de_time := t; de_off := None |}.
 
@@ -127,6 +128,20 @@ Proof.
   - exists 1. split; [lia|]. vm_compute. reflexivity.
 Qed.
 
+(* D65: once(2/29 10:00) evaluated on 2025-01-06: datetime(2025, 2, 29) raises ValueError (the trigger task dies); the
+   denoted successor is 2028-02-29 10:00 *)
+Lemma refuted_D65 : exists specs now su t,
+  next_list sc nosun next_minute est_lu est_ul as_code false specs now su = RExc /\
+  next_list sc nosun next_minute est_lu est_ul all_off false specs now su = ROk (Some (t, t)) /\
+  now < t /\ denotes_any sc nosun est_lu est_ul true specs su now t.
+Proof.
+  exists [Once {| de_date := DMonthDay 2 29; de_time := hm 10 0; de_off := None |}], 1736157600000000, 1735718400000000, 1835431200000000.
+  split; [vm_compute; reflexivity|]. split; [vm_compute; reflexivity|]. split; [lia|].
+  eexists. split; [left; reflexivity|]. cbn [denotes]. exists 21243. split.
+  - cbn [de_date day_denoted]. exists 2028. split; [reflexivity|]. split; [reflexivity|discriminate].
+  - vm_compute. reflexivity.
+Qed.
+
 (* with the switch off the same inputs give the denoted successor *)
 Example conformant_D60 :
   next_list sc nosun next_minute (tz_lu ny2024) (tz_ul ny2024) all_off false
@@ -139,3 +154,33 @@ Example conformant_D61 :
             [Once {| de_date := DMonthDay 3 5; de_time := hm 10 0; de_off := None |}] 1709719200000000 1709280000000000
   = ROk (Some (1741168800000000, 1741168800000000)).
 Proof. vm_compute. reflexivity. Qed.
+
+(* ---------- the wake-up loops of the two subsystems (deviations D62, D66) ---------- *)
+(* conformant variants: the function runs at the wake-up if the trigger time has come, else exactly at the trigger time *)
+Lemma legacy_wake_conformant lu ul cfg f t u : d_legacy_gap_recheck cfg = false -> ul (lu t) = t ->
+  legacy_wake lu ul cfg (S (S f)) t u = Some (if ul u <? t then lu t else u).
+Proof.
+  intros H R. cbn [legacy_wake]. rewrite H. destruct (ul u <? t) eqn:E; [|reflexivity].
+  replace (u + (lu t - u)) with (lu t) by lia. rewrite R, Z.ltb_irrefl. reflexivity.
+Qed.
+
+Lemma default_wake_conformant lu ul cfg f t adj u : d_newsub_adj_recheck cfg = false -> ul (lu t) = t ->
+  default_wake lu ul cfg (S (S f)) t adj u = Some (if (t <=? ul u) || (lu t - u <=? 1) then u else lu t).
+Proof.
+  intros H R. cbn [default_wake]. rewrite H. destruct ((t <=? ul u) || (lu t - u <=? 1)) eqn:E; [reflexivity|].
+  replace (u + (lu t - u)) with (lu t) by lia. rewrite R, Z.leb_refl. reflexivity.
+Qed.
+
+(* D66: a daily cron at 03:00 on 2024-03-10 in America/New_York, wake-up 1 us early: the legacy loop runs the function at
+   08:00 UTC = 04:00 EDT, one hour after the trigger time 03:00 EDT = 07:00 UTC *)
+Lemma refuted_D66 : exists t u,
+  legacy_wake (tz_lu ny2024) (tz_ul ny2024) as_code 5 t u = Some (tz_lu ny2024 t + HOUR) /\
+  legacy_wake (tz_lu ny2024) (tz_ul ny2024) all_off 5 t u = Some (tz_lu ny2024 t).
+Proof. exists 1710039600000000, (1710054000000000 - 1). split; vm_compute; reflexivity. Qed.
+
+(* D62: a daily cron at 06:00 computed on 2024-11-02 12:00:01 EDT: next_time 2024-11-03 06:00, next_time_adj 07:00; waking at the
+   right moment (06:00 EST = 11:00 UTC) the default loop sleeps another hour *)
+Lemma refuted_D62 : exists t adj u,
+  default_wake (tz_lu ny2024) (tz_ul ny2024) as_code 5 t adj u = Some (tz_lu ny2024 t + HOUR) /\
+  default_wake (tz_lu ny2024) (tz_ul ny2024) all_off 5 t adj u = Some (tz_lu ny2024 t).
+Proof. exists 1730613600000000, 1730617200000000, 1730631600000000. split; vm_compute; reflexivity. Qed.
